@@ -251,6 +251,21 @@ func c14Exec(op string) string {
 				}
 			}
 		}
+		if note == "" && o.Cast && !o.SkipSet {
+			// the sequence decoder casts by the same chain: leaf by leaf, what it returns with the
+			// cast flag is the cast of what it returns without
+			s0, e0 := mxj.NewMapXmlSeq([]byte(doc))
+			s1, e1 := mxj.NewMapXmlSeq([]byte(doc), true)
+			if e0 == nil && e1 == nil {
+				// (comments, directives and processing instructions are kept as text by design)
+				p0, p1 := stripSeqMeta(map[string]interface{}(s0)), stripSeqMeta(map[string]interface{}(s1))
+				if n := castShape(p0, p1, o, ""); n != "" {
+					note = "SEQ " + n
+				} else if n := castExact(p0, p1, o, "", ""); n != "" {
+					note = "SEQ " + n
+				}
+			}
+		}
 		if note == "" && api == 0 && hashStr(op)%3 == 0 {
 			// x2j-wrapper.DocToJson(doc, cast) beside NewMapXml(doc, cast) then Json
 			note = wrapDocToJson([]byte(doc), o.Cast)
@@ -408,4 +423,26 @@ func init() {
 		ThoroughN: 200000,
 		Fixed:     c14Exhaustive,
 	})
+}
+
+// stripSeqMeta: a MapSeq without its comment / directive / processing-instruction entries.
+func stripSeqMeta(v interface{}) interface{} {
+	switch x := v.(type) {
+	case map[string]interface{}:
+		c := map[string]interface{}{}
+		for k, e := range x {
+			if len(k) > 1 && (k[1:] == "comment" || k[1:] == "directive" || k[1:] == "procinst") {
+				continue
+			}
+			c[k] = stripSeqMeta(e)
+		}
+		return c
+	case []interface{}:
+		c := make([]interface{}, len(x))
+		for i, e := range x {
+			c[i] = stripSeqMeta(e)
+		}
+		return c
+	}
+	return v
 }
